@@ -2,7 +2,7 @@
 (* C20 - reload requests are serialised, answered, and never leave dae wedged.
 
    Processes (cmd/run.go, cmd/reload_manager.go); one action per call of the protocol primitives:
-     signal handler  tryQueueReloadRequest:  SigCas ; SigBegin ; SigSend | SigUndo ; (refused) SigBusy
+     signal handler  tryQueueReloadRequest:  SigCas ; SigBegin ; SigSend | SigUndo ; (refused) SigBusy ; SigLoad ; SigClear
      worker          for req := range reloadReqs:  WDequeue ; WActive ; WCoalesce ; WProcessing ;
                          WFail(stage)  = setRunSignalProgress(Error) ; reloadActive.Store(false) ; clearReloadPending
                        | WHandoff      = beginHandoff (reloading := TRUE, notify main loop)  [+ optional retirement start]
@@ -21,7 +21,9 @@
 EXTENDS Integers, Sequences, FiniteSets, TLC, Json
 
 CONSTANTS NSignals,        \* number of signals (reload / suspend) that will arrive
-          BeginBeforeSend  \* TRUE: muting begins before the request is sent (the code); FALSE: a reordering variant
+          BeginBeforeSend, \* TRUE: muting begins before the request is sent (the code); FALSE: a reordering variant
+          RecheckAfterBusy \* TRUE: a refused request looks at the admission flag again after its busy report (the code since
+                           \* the repair); FALSE: the report is left to whoever completes (violates ProgressSettles)
 
 VARIABLES
   pending, active, reloading,      \* the three flags
@@ -90,8 +92,21 @@ SigUndo ==      \* channel full: give the admission back
 SigBusy ==      \* refused: only the busy report
   /\ spc = "busy"
   /\ progress' = IF active THEN "busyActive" ELSE "busyRetiring"
-  /\ spc' = "idle"
+  /\ spc' = IF RecheckAfterBusy THEN "load" ELSE "idle"
   /\ H([a |-> "SigBusy"])
+  /\ UNCHANGED <<pending, active, reloading, chan, suppress, sleft, wpc, mnotified, mpc, retire, waiter, begun, ended, admitted, settled, answered>>
+\* ... and, the operation that caused the refusal may have completed meanwhile (nobody would clear the report any more):
+\* look at the admission flag again; when it is clear, clear the report (the repair recorded under C20 in known_findings)
+SigLoad ==
+  /\ spc = "load"
+  /\ spc' = IF pending THEN "idle" ELSE "clear"
+  /\ H([a |-> "SigLoad"])
+  /\ UNCHANGED <<pending, active, reloading, chan, suppress, progress, sleft, wpc, mnotified, mpc, retire, waiter, begun, ended, admitted, settled, answered>>
+SigClear ==
+  /\ spc = "clear"
+  /\ progress' = IF progress \in {"busyActive", "busyRetiring"} THEN "done" ELSE progress
+  /\ spc' = "idle"
+  /\ H([a |-> "SigClear"])
   /\ UNCHANGED <<pending, active, reloading, chan, suppress, sleft, wpc, mnotified, mpc, retire, waiter, begun, ended, admitted, settled, answered>>
 
 (* ---------------- clearReloadPending, inlined as three steps for whoever runs it ---------------- *)
@@ -212,7 +227,7 @@ RCp3(i) == /\ i \in DOMAIN waiter /\ waiter[i].pc = "cp3" /\ CP3
            /\ waiter' = [waiter EXCEPT ![i].pc = "exited"] /\ settled' = settled + 1 /\ H([a |-> "RCp3", w |-> i])
            /\ UNCHANGED <<pending, active, reloading, chan, suppress, spc, sleft, wpc, mnotified, mpc, retire, begun, ended, admitted, answered>>
 
-Next == \/ SigCas \/ SigBegin \/ SigSend \/ SigUndo \/ SigBusy
+Next == \/ SigCas \/ SigBegin \/ SigSend \/ SigUndo \/ SigBusy \/ SigLoad \/ SigClear
         \/ WDequeue \/ WActive \/ WCoalesce \/ WProcessing \/ WFailError \/ WFailInactive \/ WCp1 \/ WCp2 \/ WCp3
         \/ WHandoff(TRUE) \/ WHandoff(FALSE)
         \/ MTake \/ MFailError \/ MFailFlags \/ MCp2 \/ MCp3
@@ -233,11 +248,14 @@ Quiescent == /\ spc = "idle" /\ sleft = 0 /\ wpc = "idle" /\ mpc = "idle" /\ cha
              /\ retire \in {"none", "done"} /\ \A i \in DOMAIN waiter : waiter[i].pc = "exited"
 NeverWedged == Quiescent => (~pending /\ ~active /\ ~reloading /\ suppress = 0)
 AnsweredAll == Quiescent => (answered = admitted /\ settled = admitted)
+\* once everything has settled the progress file says Done or Error: 'dae reload' / 'dae suspend' refuse to signal otherwise
+ProgressSettles == Quiescent => progress \in {"done", "error"}
 \* a refused request changes nothing except the busy report
 RefusedChangesNothing ==
-  [][(spc = "busy" /\ spc' = "idle") =>
+  [][(spc \in {"busy", "load", "clear"} /\ spc' # spc) =>
        /\ pending' = pending /\ active' = active /\ reloading' = reloading /\ chan' = chan /\ suppress' = suppress
-       /\ progress' \in {"busyActive", "busyRetiring"}]_vars
+       /\ (spc = "busy" => progress' \in {"busyActive", "busyRetiring"})
+       /\ (spc = "clear" => progress' \in {progress, "done"})]_vars
 \* liveness: under fairness the system always returns to a state accepting a new request
 Progress == <>[](spc = "idle" /\ wpc = "idle" /\ mpc = "idle" /\ ~pending /\ ~active /\ ~reloading /\ suppress = 0)
 
